@@ -228,6 +228,50 @@ theorem lin_all (A : Eff Content MetaRec WalRec LogRec → Prop) (d0 : Disk Cont
     simp only [effsOf, List.mem_filterMap]
     exact ⟨_, hev, rfl⟩
 
+/-! ## Started in a state with pending effects
+
+An operation does not start on a flushed disk: the previous sync leaves the truncation of the WAL un-synced.  The
+linearisation from an arbitrary concurrent state `s` is a sequential trace run from the FLUSHED state `⟨s.dur, []⟩`: the
+effects pending in `s` appear in it where they become durable, or in the tail. -/
+
+def linFrom (s : CState Content MetaRec WalRec LogRec) (ct : List (CEv Content MetaRec WalRec LogRec)) :
+    List (Ev Content MetaRec WalRec LogRec) :=
+  linDRun s ct ++ (crun s ct).volEffs.map Ev.eff
+
+theorem lin_eq_linFrom (d0 : Disk Content MetaRec WalRec LogRec) (ct : List (CEv Content MetaRec WalRec LogRec)) :
+    lin d0 ct = linFrom (cinit d0) ct := rfl
+
+theorem run_linFrom (s : CState Content MetaRec WalRec LogRec) (ct : List (CEv Content MetaRec WalRec LogRec)) :
+    run ⟨s.dur, []⟩ (linFrom s ct) = (crun s ct).toExec := by
+  unfold linFrom
+  rw [run_append, run_linDRun, run_effs]
+  simp [CState.toExec]
+
+theorem isCImage_linFrom (s : CState Content MetaRec WalRec LogRec) (ct : List (CEv Content MetaRec WalRec LogRec))
+    (img : Disk Content MetaRec WalRec LogRec) :
+    IsCImage (crun s ct) img ↔ IsImage (run ⟨s.dur, []⟩ (linFrom s ct)) img := by
+  rw [run_linFrom]; exact Iff.rfl
+
+theorem linFrom_perm (s : CState Content MetaRec WalRec LogRec) (ct : List (CEv Content MetaRec WalRec LogRec)) :
+    List.Perm (effsOf (linFrom s ct)) (s.volEffs ++ begun ct) := by
+  have := linDRun_perm s ct
+  simpa only [linFrom, effsOf_append, effsOf_effs] using this
+
+theorem linFrom_all (A : Eff Content MetaRec WalRec LogRec → Prop) (s : CState Content MetaRec WalRec LogRec)
+    (ct : List (CEv Content MetaRec WalRec LogRec)) (h0 : ∀ e ∈ s.volEffs, A e) (h : ∀ e ∈ begun ct, A e) :
+    ∀ ev ∈ linFrom s ct, EvA A ev := by
+  intro ev hev
+  cases ev with
+  | fsync f => trivial
+  | eff e =>
+    have : e ∈ s.volEffs ++ begun ct := by
+      apply (linFrom_perm s ct).subset
+      simp only [effsOf, List.mem_filterMap]
+      exact ⟨_, hev, rfl⟩
+    rcases List.mem_append.mp this with h1 | h1
+    · exact h0 e h1
+    · exact h e h1
+
 /-! ## Order: the volatile effects are always in Begin order
 
 Every block of the linearisation is a sub-list of the volatile list at the time of the flush and the tail is the
